@@ -29,7 +29,7 @@ def direct_rater(reg, ts, names, lda):
     return IndentationRater(regressor=cl(**copy.deepcopy(kw)), training_set=ts, names=names, lda=lda)
 
 
-def sklearn_reference(reg, ts, lda, idnt):
+def sklearn_reference(reg, ts, lda, idnt, names=None):
     """the rating recomputed without IndentationRater: scikit-learn pipeline built from the documented rules
     (tree-based regressors: no scaler, no LDA by default; others: scaler, LDA unless lda is False), regressor class and
     keyword arguments from the live table, occurrence weights 1/count(class) normalised; None when the rating is not
@@ -40,6 +40,11 @@ def sklearn_reference(reg, ts, lda, idnt):
     from nanite.rate import rater as nrater
     from nanite.rate import regressors
     from nanite.rate.features import IndentationFeatures
+    if not isinstance(ts, tuple):
+        # a training set given by label / directory: loaded with the public loader for the selected features
+        from nanite.rate import IndentationRater
+        path = IndentationRater.get_training_set_path(label=ts) if ts in nrater.get_available_training_sets() else ts
+        ts = IndentationRater.load_training_set(path=path, names=names)
     X, y = np.array(ts[0], dtype=float), np.array(ts[1], dtype=float)
     cl, kw = nrater.reg_dict[reg]
     tree = cl.__name__ in regressors.reg_trees
@@ -53,11 +58,49 @@ def sklearn_reference(reg, ts, lda, idnt):
     pipe = make_pipeline(*steps)
     pipe.fit(X, y, **{pipe.steps[-1][0] + "__sample_weight": w})
     with np.errstate(all="ignore"):
-        b_ = IndentationFeatures.compute_features(idnt, which_type="binary")
-        c_ = IndentationFeatures.compute_features(idnt, which_type="continuous")
+        # (only the selected features take part: a criterion that is not selected cannot exclude the curve)
+        b_ = IndentationFeatures.compute_features(idnt, which_type="binary", names=names)
+        c_ = IndentationFeatures.compute_features(idnt, which_type="continuous", names=names)
     if np.any(np.asarray(b_) == 0) or np.any(np.isnan(b_)) or np.any(np.isnan(c_)):
         return None
     return float(pipe.predict(np.atleast_2d(c_))[0])
+
+
+def pipeline_tie(ctx):
+    """which transforms precede the regressor: IndentationRater vs the Lean decision model (Model/Pipeline.lean),
+    for every regressor of the live table x scale x lda, and without a regressor"""
+    from nanite.rate import rater as nrater
+    from nanite.rate import regressors
+    from nanite.rate import IndentationRater
+    g = np.random.default_rng(5)
+    X, y = g.normal(0, 1, (40, 3)), g.integers(0, 11, 40).astype(float)
+    lines, expect, metas = [], [], []
+    for reg in list(nrater.reg_names) + [None]:
+        for scale in (None, True, False):
+            for lda in (None, True, False):
+                if reg is None:
+                    robj, tree, cname = None, False, None
+                else:
+                    cl, kw = nrater.reg_dict[reg]
+                    robj, tree, cname = cl(**copy.deepcopy(kw)), cl.__name__ in regressors.reg_trees, cl.__name__
+                meta = {"tie": "pipeline", "regressor": reg, "scale": scale, "lda": lda}
+                with warnings.catch_warnings():
+                    warnings.simplefilter("ignore")
+                    try:
+                        rt = IndentationRater(regressor=robj, scale=scale, lda=lda, training_set=(X.copy(), y.copy()))
+                        got = ",".join("regressor" if type(st[1]).__name__ == cname else type(st[1]).__name__.lower()
+                                       for st in rt.pipeline.steps)
+                    except BaseException as e:  # noqa
+                        got = "raises " + type(e).__name__
+                ctx.case(meta, nontrivial=json.dumps(meta), bucket=["stream=pipeline-tie", f"lda={lda}", f"scale={scale}"])
+                lines.append({"reg": reg is not None, "tree": bool(tree), "scale": scale, "lda": lda})
+                expect.append(got)
+                metas.append(meta)
+    out = ctx.driver("C09", lines)
+    if out is not None:
+        for meta, a, b_ in zip(metas, expect, out):
+            if a != b_:
+                ctx.disagree(meta, a, b_, "steps of the rating pipeline")
 
 
 def state_classes(cid):
@@ -77,6 +120,10 @@ def state_classes(cid):
         w.fit_model(preprocessing=["compute_tip_position", "correct_tip_offset"])
         w.fit_properties["weight_cp"] = 0
         out.append(("fitted-then-set", w))
+        # a fitted curve that is too short for the rater's size criterion (160 approach samples)
+        w = histlib.fresh(0)
+        w.fit_model(preprocessing=["compute_tip_position", "correct_tip_offset"])
+        out.append(("fitted-short", w))
         w = histlib.fresh(cid)
         w.fit_model(preprocessing=["compute_tip_position", "correct_tip_offset"], range_x=(5e-3, 6e-3))
         out.append(("unsuccessful-fit", w))
@@ -120,6 +167,7 @@ def run(ctx):
                 "= fresh object = standalone rater = other process with another PYTHONHASHSEED; non-trivial = "
                 "distinct (state, regressor, training set, names, lda)")
     c03.common_setup(ctx, "C09")
+    pipeline_tie(ctx)
     ctx.check_rating_value = True
     c03.run_histories(ctx, "C09", focus=(1.5, 3, 1.5, 5, 1.5), nhist=30 if ctx.tier == "quick" else 600,
                       check_fresh=False, direct_pp_edits=False,
@@ -146,7 +194,8 @@ def run(ctx):
             for reg in regs:
                 for tlabel, ts in (tsets if ctx.tier != "quick" else tsets[:1] + tsets[2:]):
                     for nm, lda in ((None, None), (["feat_con_apr_sum", "feat_con_idt_sum", "feat_bin_size"], None),
-                                    (None, False), (None, True)):
+                                    (None, False), (None, True),
+                                    (["feat_con_idt_sum", "feat_con_apr_sum", "feat_con_cp_magnitude"], None)):
                         if lda is True and not reg.startswith("SVR"):
                             continue
                         if reg.startswith("SVR") and ctx.tier == "quick" and not isinstance(ts, tuple):
@@ -183,8 +232,9 @@ def run(ctx):
                                 if c != a:
                                     ctx.violation("differs-from-standalone-rater",
                                                   f"rate_quality gives {a}, the standalone rater {c}", {"input": meta})
-                                if isinstance(ts, tuple) and nm is None:
-                                    ref = sklearn_reference(reg, ts, lda, idnt)
+                                if (isinstance(ts, tuple) and nm is None) or \
+                                        (not isinstance(ts, tuple) and (nm is not None or label == "fitted-short")):
+                                    ref = sklearn_reference(reg, ts, lda, idnt, names=nm)
                                     if ref is not None and abs(ref - a) > 1e-9 * max(1.0, abs(ref)):
                                         ctx.violation("differs-from-scikit-learn-reference",
                                                       f"rate_quality({reg}, lda={lda}) gives {a!r}; the documented "
